@@ -284,9 +284,9 @@ def _sym_isinstance(obj, cls):
         return isinstance(virt, type) and issubclass(real, virt)
     if isinstance(cls, tuple):
         return any(_sym_isinstance(obj, c) for c in cls)
-    virt = getattr(cls, "__pv_isinstance__", None)
-    if virt is not None:
-        return virt(obj)
+    hook = getattr(type(obj), "__pv_isinstance__", None)
+    if hook is not None:
+        return bool(hook(obj, cls)) or isinstance(obj, cls)
     if cls is float and isinstance(obj, sym.SReal):
         return True
     if cls is int and isinstance(obj, sym.SInt):
